@@ -171,9 +171,9 @@ impl Mappable for ClassFile {
 			runtime_visible_type_annotations: self.runtime_visible_type_annotations.remap(remapper)?,
 			runtime_invisible_type_annotations: self.runtime_invisible_type_annotations.remap(remapper)?,
 
-			module: None, // TODO
-			module_packages: None, // TODO
-			module_main_class: None, // TODO
+			module: self.module.remap(remapper)?,
+			module_packages: self.module_packages, // TODO: package names
+			module_main_class: self.module_main_class.remap(remapper)?,
 
 			nest_host_class: self.nest_host_class.remap(remapper)?,
 			nest_members: self.nest_members.remap(remapper)?,
@@ -584,6 +584,20 @@ impl Mappable for Exception {
 			handler: self.handler,
 			catch: self.catch.remap(remapper)?,
 		})
+	}
+}
+
+impl Mappable for duke::tree::module::Module {
+	fn remap(mut self, remapper: &impl BRemapper) -> Result<Self> {
+		// TODO: the package names of exports / opens
+		self.uses = self.uses.remap(remapper)?;
+		self.provides = self.provides.into_iter()
+			.map(|provides| Ok(duke::tree::module::ModuleProvides {
+				name: provides.name.remap(remapper)?,
+				provides_with: provides.provides_with.remap(remapper)?,
+			}))
+			.collect::<Result<_>>()?;
+		Ok(self)
 	}
 }
 
